@@ -277,6 +277,9 @@ class CallsMixin:
             return St("Instant", {"t": I(ip.clock, "u128")})
         if key == "SystemTime::now":
             return ip.wall_clock()
+        if key == "Utc::now":
+            w = ip.wall_clock()
+            return St("DateTime", {"t": I(w.f["ms"].v, "i64")})
         if key in ("mem::take", "std::mem::take"):
             r = A()[0]
             if not isinstance(r, Rf):
